@@ -50,6 +50,8 @@ def frequency_components(circuit: Circuit, w_max: float) -> list[float]:
             return []
         if component.type == 'periodic_voltage_source' or component.type == 'periodic_current_source':
             n_max = np.floor(w_max/w)
+            if w*(n_max+1) <= w_max:
+                n_max += 1
             return [w*n for n in np.arange(n_max+1)]
         return [w]
     return sorted(list(set([w for c in circuit.components for w in frequencies(c)])))
